@@ -179,8 +179,9 @@ class KDict(Kind):
     operations): forall 0 <= i < n: idx[keys[i]] == i  (keys are distinct).
     """
 
-    def __init__(self, key: Kind, val: Kind):
+    def __init__(self, key: Kind, val: Kind, default=None):
         self.key, self.val = key, val
+        self.default = default           # python-level constant for defaultdict(factory), else None
         self.name = f'Dict[{key!r},{val!r}]'
 
     def _dt(self):
@@ -379,6 +380,10 @@ def coerce(v: V, kind: Kind) -> V:
             return V(KFn, DynS.fid(t), meta=v.meta)
     if isinstance(kind, KTuple) and isinstance(v.kind, KTuple) and len(kind.items) == len(v.kind.items):
         return TupV([coerce(x, k) for x, k in zip(tuple_items(v), kind.items)])
+    if isinstance(kind, KDict) and isinstance(v.kind, KDict) and v.meta == 'emptydict':
+        return V(kind, DictOps(kind).empty())
+    if isinstance(kind, KDict) and isinstance(v.kind, KDict) and repr(kind) == repr(v.kind):
+        return V(kind, v.term, v.meta)
     if isinstance(kind, KList) and isinstance(v.kind, KList) and v.meta == 'empty':
         return V(kind, ListOps(kind).empty())
     raise Unsupported(f'cannot coerce {v.kind!r} to {kind!r}')
